@@ -45,6 +45,7 @@ func loadZone(name string) *time.Location {
 
 type gen struct {
 	r         *rand.Rand
+	glueP     float64  // probability that a static feed gets (route, service) ids that coincide when glued (0 = default)
 	zoneDates []string // days on which the current feed's first agency zone changes its offset (static generator)
 	longLeft  int      // how many very long strings this generator may still produce (they are expensive on the Coq side)
 }
